@@ -177,6 +177,8 @@ pub struct Real {
     pub encs: Vec<Option<(XEnc, Secret<32>)>>,
     pub pkes: Vec<Option<(XEnc, Vec<u8>)>>,
     pub hdrs: Vec<Option<(EncryptedHeader, Secret<32>)>>,
+    /// encapsulation handles whose tampered bytes no longer deserialise
+    pub dead: std::collections::HashSet<usize>,
     pub nm: Names,
 }
 
@@ -246,7 +248,7 @@ pub fn clone_msk(m: &MasterSecretKey) -> MasterSecretKey {
 
 impl Real {
     pub fn new() -> Self {
-        Self { cc: Covercrypt::default(), msks: vec![], mpks: vec![], usks: vec![], encs: vec![], pkes: vec![], hdrs: vec![], nm: Names::default() }
+        Self { cc: Covercrypt::default(), msks: vec![], mpks: vec![], usks: vec![], encs: vec![], pkes: vec![], hdrs: vec![], dead: Default::default(), nm: Names::default() }
     }
 
     fn reset(&mut self) {
@@ -256,6 +258,7 @@ impl Real {
         self.encs.clear();
         self.pkes.clear();
         self.hdrs.clear();
+        self.dead.clear();
         self.nm = Names::default();
     }
 
@@ -425,6 +428,7 @@ impl Real {
                 let (Some(i), Some(j)) = (handle('U', us), handle('E', es)) else { return "bad-op".into() };
                 match (self.usks.get(i), self.encs.get(j)) {
                     (Some(Some(u)), Some(Some(e))) => format!("ok {}", self.decaps_str(u, e)),
+                    (Some(Some(_)), _) if self.dead.contains(&j) => "ok 0".into(),
                     _ => "err NoSuchHandle".into(),
                 }
             }
@@ -528,6 +532,55 @@ impl Real {
                         format!("ok {}", v.join(","))
                     }
                 }
+            }
+            ["tamper_enc", es, ed, op, rest @ ..] => {
+                // structural / byte-level tampering of a serialised encapsulation; the result keeps the
+                // secret of the original as "expected" so that `decaps` prints 1 only if it is recovered
+                let (Some(i), Some(j)) = (handle('E', es), handle('E', ed)) else { return "bad-op".into() };
+                let Some(Some((x, sec))) = self.encs.get(i) else { return "err NoSuchHandle".into() };
+                let sec = sec.clone();
+                let bytes = x.serialize().unwrap().to_vec();
+                let other = |k: &str| -> Option<WEnc> {
+                    let k = handle('E', k)?;
+                    let (y, _) = self.encs.get(k)?.as_ref()?;
+                    WEnc::read(&y.serialize().ok()?).ok()
+                };
+                let mut w = WEnc::read(&bytes).expect("harness cannot parse XEnc bytes");
+                let num = |k: usize| -> Option<usize> { rest.get(k).and_then(|s| s.parse::<usize>().ok()) };
+                let out: Option<Vec<u8>> = match *op {
+                    "flip" => num(0).zip(num(1)).and_then(|(b, bit)| {
+                        let mut v = bytes.clone();
+                        if b < v.len() { v[b] ^= 1 << (bit % 8); Some(v) } else { None }
+                    }),
+                    "trunc" => num(0).map(|n| bytes[..n.min(bytes.len())].to_vec()),
+                    "swap_trap" => num(0).zip(num(1)).and_then(|(a, b)| { if a < w.c.len() && b < w.c.len() { w.c.swap(a, b); Some(w.write()) } else { None } }),
+                    "drop_trap" => num(0).and_then(|a| { if a < w.c.len() { w.c.remove(a); Some(w.write()) } else { None } }),
+                    "dup_trap" => num(0).and_then(|a| { if a < w.c.len() { let t = w.c[a].clone(); w.c.push(t); Some(w.write()) } else { None } }),
+                    "swap_f" => num(0).zip(num(1)).and_then(|(a, b)| { if a < w.encs.len() && b < w.encs.len() { w.encs.swap(a, b); Some(w.write()) } else { None } }),
+                    "swap_ff" => num(0).zip(num(1)).and_then(|(a, b)| { if a < w.encs.len() && b < w.encs.len() { let t = w.encs[a].1.clone(); w.encs[a].1 = w.encs[b].1.clone(); w.encs[b].1 = t; Some(w.write()) } else { None } }),
+                    "swap_e" => num(0).zip(num(1)).and_then(|(a, b)| { if a < w.encs.len() && b < w.encs.len() { let t = w.encs[a].0.clone(); w.encs[a].0 = w.encs[b].0.clone(); w.encs[b].0 = t; Some(w.write()) } else { None } }),
+                    "drop_f" => num(0).and_then(|a| { if a < w.encs.len() { w.encs.remove(a); Some(w.write()) } else { None } }),
+                    "dup_f" => num(0).and_then(|a| { if a < w.encs.len() { let t = w.encs[a].clone(); w.encs.push(t); Some(w.write()) } else { None } }),
+                    "splice_f" => rest.first().and_then(|k| other(k)).zip(num(1)).and_then(|(o, a)| { if a < w.encs.len() && a < o.encs.len() && o.hyb == w.hyb { w.encs[a] = o.encs[a].clone(); Some(w.write()) } else { None } }),
+                    "splice_c" => rest.first().and_then(|k| other(k)).map(|o| { w.c = o.c.clone(); w.write() }),
+                    "splice_tag" => rest.first().and_then(|k| other(k)).map(|o| { w.tag = o.tag.clone(); w.write() }),
+                    "splice_encs" => rest.first().and_then(|k| other(k)).map(|o| { w.hyb = o.hyb; w.encs = o.encs.clone(); w.write() }),
+                    "reflavour" => { if w.hyb == 1 { w.hyb = 0; for e in w.encs.iter_mut() { e.0.clear(); } Some(w.write()) } else { None } }
+                    _ => None,
+                };
+                let Some(out) = out else { return "bad-op".into() };
+                if out == bytes {
+                    return "bad-op".into();
+                }
+                match XEnc::deserialize(&out) {
+                    Ok(y) => set_slot(&mut self.encs, j, Some((y, sec))),
+                    // not even an encapsulation any more: decaps of this handle reports "no secret"
+                    Err(_) => {
+                        set_slot(&mut self.encs, j, None);
+                        self.dead.insert(j);
+                    }
+                }
+                "ok".into()
             }
             ["pke_enc", ks, xs, p, ptx] => {
                 let (Some(k), Some(j), Some(Some(ptx))) = (handle('K', ks), handle('X', xs), opt_bytes(ptx)) else { return "bad-op".into() };
